@@ -44,7 +44,8 @@ def errName : Res → Option String
 def srcWorld (src : List (List Int)) : World := { src := src, watch := [], tgts := [], stack := [] }
 
 /-- the current resolved value of a reference, from the observed sources -/
-def expected (c : Cfg) (src : List (List Int)) (r : Rhs) : Option Val := resolveRhs c (srcWorld src) r
+def expected (c : Cfg) (src : List (List Int)) (r : Rhs) (nested : Bool) : Option Val :=
+  resolveRhs c (srcWorld src) r nested
 
 def nestedOf (c : Cfg) (t p : Nat) : Bool := ((c.decl t p).map (·.nestedRefs)).getD false
 
@@ -65,7 +66,7 @@ def checkTracks (c : Cfg) (s : State) (skip : SrcP → Bool) : Option String :=
   firstSome (List.range (ntargets s)) fun t =>
     firstSome ((s.refs[t]?).getD []) fun kv =>
       if (linkDeps c t kv).any skip then none else
-      match expected c s.src kv.2, c.decl t kv.1 with
+      match expected c s.src kv.2 (nestedOf c t kv.1), c.decl t kv.1 with
       | some v, some d =>
         if d.valid v && tgtVal s t kv.1 != some v then
           some s!"T{t}.p{kv.1} is linked, the reference resolves to a valid value, but the parameter does not hold it"
